@@ -137,7 +137,8 @@
 //     function.
 //   - A method of a named integer / boolean / byte-string type with a VALUE receiver is called with the value.
 //   - time.Time is an Int: an instant on an abstract timeline in nanoseconds; only the zero literal `time.Time{}`
-//     (= 0), assignment and `t.Sub(u)` (= t - u; saturation at ±2^63 ns is outside the model) are accepted.
+//     (= 0), assignment, `t.Sub(u)` (= t - u; saturation at ±2^63 ns is outside the model) and `t.Add(d)` (= t + d, see
+//     "I/O" below) are accepted.
 //   - A []T field of a struct, for T in listFieldOK (secs1.block), is a `List T` field. It is read as a whole
 //     (len, index, range, passed to a translated function that only reads it) and assigned only as
 //     `x.f = append(x.f, v…)` (x.f ++ [v…]), `x.f = append(x.f[:0], v…)` ([v…]), `x.f = x.f[:0]` / `nil` ([]): the
@@ -159,11 +160,71 @@
 //     means "a panic, OR the loop was still running after 4 iterations" — no claim is made about such runs; every
 //     tie theorem proves `= some _`.
 //
-// Not supported (rejected) in either mode: floats, maps, channel receive and close, goroutines, select, defer,
+// # I/O: readers, writers, deadlines, clocks (translate_io.go; tables printed in the header of the generated files)
+//
+// The effect discipline extended to code that drives a socket. Nothing here gives a meaning to the I/O itself: every call
+// is a trace entry, every result an oracle value; what is tied is the code AROUND the calls (which deadline is set before
+// which Read, what is done with each result, the loops).
+//
+//   - FOREIGN EFFECTS (table foreignEffects): a method of a type OUTSIDE the repository — net.Conn.SetReadDeadline,
+//     net.Conn.Write, bufio.Reader.ReadByte, context.Context.Err — is recorded as `Effect.call "<pkg>.<Type>.<Method>"
+//     args` and its results, when used, are the next oracle values, exactly like a method of an interface value of the
+//     repository. The receiver expression must be something the translation holds no value for (a reference field, an
+//     opaque parameter). An oracle result of a bounded integer type (the byte of ReadByte) is wrapped into its range.
+//     The n of Write is NOT constrained (a model that wants 0 <= n <= len says so in its script).
+//   - READ INTO (table readInto: net.Conn.Read, bufio.Reader.Read): `n, err := r.Read(p)` with p = x or x[i:], x a
+//     local array, a local slice that holds memory owned by the function, or an in-out parameter. Trace:
+//     `Effect.call key [.int len(p)]`. Oracle: TWO values, `.bytes data` then `.err e`. Meaning: exactly
+//     `n = copy(p, data)`: the first min(len p, len data) bytes of data are stored at the front of p, n is their
+//     number, err = e. This is the io.Reader contract (0 <= n <= len(p), the bytes are in p[:n]) plus ONE assumption:
+//     p[n:] is left unchanged (io.Reader allows the reader to scribble there; the translated callers overwrite or drop
+//     those bytes before reading them).
+//   - OPAQUE PARAMETERS: a parameter of interface or function type without devirtualisation entry (net.Conn,
+//     context.Context, func() time.Time, func(block) error) is NOT a parameter of the Lean function. It may only be the
+//     receiver of a foreign-effect call, be called (`now()`, `deliver(b)`: `Effect.call "<function key>.<parameter>" args`,
+//     results from the oracle), be polled (below), be passed on for an opaque parameter of a translated callee (the
+//     argument expression is then dropped: it must be harmless()), or appear as `.opaque` in an effect's arguments.
+//   - IN-OUT PARAMETERS: (a) a parameter of type *bool / *<integer>: the Lean function takes its VALUE, `*p` reads it,
+//     `*p = v` writes it, any other use of p is rejected; (b) a []byte parameter that is the destination of a READ INTO
+//     call or is handed on as an in-out argument: element writes into it are accepted although it is a parameter. The
+//     final values of the in-out parameters are extra components of the function's value, after the Go results, in
+//     parameter order:  (receiver')? × results… × in-outs… × trace × (oracle rest)?.  At a call site the argument must
+//     be `&x` (x a local of basic type whose address is taken nowhere else: `&` on a non-struct is rejected everywhere
+//     else) resp. `a[:]` (a a local array) or a local slice variable that holds memory owned by the caller (make / a
+//     literal / an ALLOCATOR result / its own in-out parameter); the same variable cannot be handed over twice in one
+//     call; after the call the variable is rebound to the value handed back. In the aliasing analysis such a call counts
+//     as a write to the variable (so it may get another name only after the last such call). An in-out parameter cannot
+//     be assigned as a whole.
+//   - ALLOCATORS (table allocators: hsmsss.transport.allocFrame): the []byte result of such a function-valued field is
+//     taken to be memory no other name in the function refers to.
+//   - CONTEXT POLL: `select { case <-ctx.Done(): A; default: B }` with ctx an opaque parameter of type context.Context
+//     (exactly two clauses, the receive in statement position) is `Effect.call "context.Context.Done.poll" []` + one
+//     oracle Bool: true = the channel is ready, A runs; false: B. Every other select is rejected.
+//   - time.Time.Add(d) = t + d (an instant plus a duration, both Int nanoseconds; overflow outside the model), next to
+//     Sub and the zero literal.
+//   - fmt.Errorf with SEVERAL %w verbs: the FIRST %w operand identifies the error (a sentinel, or Go.wrapErr of a value);
+//     the other operands are evaluated and dropped.
+//   - `for { … }` as the LAST statement of a function (never left by break): the loop's `.ok` exit is `none`
+//     (unreachable: a constant-true condition without break).
+//   - FUEL AS A PARAMETER (table fuelFuncs, and every function that calls one of them): the loops without an evident trip
+//     count of these functions take their fuel from a parameter `fuel_ : Nat` (after the Go parameters, before orc_), passed
+//     on unchanged to every callee that has one. Their loops are emitted as named definitions
+//     `<fn>_loop<k>_cond / _body / _post`, lambda-lifted over the variables in scope on entry that they mention (and
+//     fuel_); the function applies Go.loopWhileM to them. `none` = a panic, or some loop still running after fuel_
+//     iterations; the tie theorems (Lemmas/IoScript.lean `loopWhileM_sim`) prove the regenerated loop equal to the
+//     hand-written one for EVERY fuel.
+//   - FLOAT → INTEGER: floats are not represented, but `T(f)` for an integer type T and a float expression f built from
+//     conversions, arithmetic and float PARAMETERS (which are opaque parameters) is `Effect.call "float.toInt" [.opaque]`
+//     plus one oracle Int (wrapped into T's range when T is bounded): Go leaves NaN / ±Inf / out-of-range conversions to the
+//     implementation, i.e. "any value of T". Float locals, float results and every other use of a float are rejected.
+//   - pureGetters gains hsmsss.transport.clock (returns t.now or time.Now: only ever passed for an opaque parameter).
+//
+// Not supported (rejected) in either mode: floats, maps, channel receive and close (other than the context poll), goroutines,
+// select (other than the context poll), defer,
 // closures (other than the iterator form), generics, labels/goto, type switches and every type assertion not
 // covered by a devirtualisation entry, method values, variadic calls (other than ignored ones), strings other than as
 // byte strings, package-level variables other than error sentinels, recursion, atomic.Pointer Store / Swap /
-// CompareAndSwap, atomic.Value, time.Time arithmetic other than Sub, effects inside windows and iterator functions,
+// CompareAndSwap, atomic.Value, time.Time arithmetic other than Sub / Add, effects inside windows and iterator functions,
 // a function value that is not a struct field, an untranslated repository callee that is not in asEffect.
 package main
 
@@ -266,6 +327,10 @@ type fnOut struct {
 	// receiver fields that callees treated as opaque effects (asEffect) may write: must stay disjoint
 	touched      map[string]bool
 	opaqueWrites map[string]string // field -> the asEffect callee that may write it
+	// I/O (translate_io.go)
+	dropParam []bool // per Go parameter: opaque (interface / function type), not a parameter of the Lean function
+	inout     []int  // Go parameter indices of the in-out parameters: their final values follow the results
+	fuel      bool   // takes `fuel_ : Nat` (after the Go parameters, before orc_)
 }
 
 type G struct {
@@ -559,12 +624,13 @@ func (g *G) translate(key string) *fnOut {
 		return out
 	}
 	var m modes
+	m.fuel = fuelFuncs[key]
 	for tries := 0; ; tries++ {
 		if tries > 8 {
 			out.why = "internal: translation modes do not settle"
 			break
 		}
-		t := &tr{g: g, p: p, fd: fd, key: key, optMode: m.opt, eff: m.eff, recvW: m.recvW, useOrc: m.orc,
+		t := &tr{g: g, p: p, fd: fd, key: key, optMode: m.opt, eff: m.eff, recvW: m.recvW, useOrc: m.orc, fuelP: m.fuel,
 			names: map[*types.Var]string{}, used: map[string]bool{},
 			written: map[*types.Var]bool{}, fresh: map[*types.Var]bool{}, out: out}
 		again := false
@@ -581,6 +647,7 @@ func (g *G) translate(key string) *fnOut {
 						m.eff = true
 						m.recvW = m.recvW || u.recvW
 						m.orc = m.orc || u.orc
+						m.fuel = m.fuel || u.fuel
 					default:
 						panic(r)
 					}
@@ -595,6 +662,7 @@ func (g *G) translate(key string) *fnOut {
 			out.ok = true
 			out.partial = m.opt
 			out.eff, out.recvW, out.useOrc = m.eff, m.recvW, m.orc
+			out.fuel = m.fuel
 		}()
 		if !again {
 			break
@@ -615,8 +683,8 @@ type needOption struct{}
 
 // modes: how the function is translated; a translation attempt that finds it needs more panics with
 // needOption / needMode and is repeated (translate).
-type modes struct{ opt, eff, recvW, orc bool }
-type needMode struct{ recvW, orc bool }
+type modes struct{ opt, eff, recvW, orc, fuel bool }
+type needMode struct{ recvW, orc, fuel bool }
 
 func bail(format string, a ...any) { panic(untranslatable{fmt.Sprintf(format, a...)}) }
 
@@ -651,6 +719,13 @@ type tr struct {
 	opaqueVars         map[*types.Var]bool
 	allowAtomic        bool
 	winMut, winRead    bool // since the last flush: the receiver was written / a plain receiver field was read
+	// I/O (translate_io.go)
+	opaqueParams map[*types.Var]bool // parameters of interface / function type: not parameters of the Lean function
+	inoutSet     map[*types.Var]bool // in-out parameters (`*bool` / `*int…`, a []byte that is written into)
+	fuelP        bool                // the loop fuel is the parameter fuel_
+	wrapOrc      bool                // oracle results of bounded integer type are wrapped (foreignEffects callees)
+	loopN        int                 // named loops emitted so far
+	auxDefs      []string            // definitions emitted before the function's own (named loop pieces)
 }
 
 func (t *tr) pos(n ast.Node) string {
@@ -966,6 +1041,9 @@ func (t *tr) expr0(e ast.Expr, consumed bool) string {
 	case *ast.SelectorExpr:
 		return t.selector(x)
 	case *ast.StarExpr:
+		if id, ok := ast.Unparen(x.X).(*ast.Ident); ok && t.inoutPtr(t.varOf(id)) {
+			return t.names[t.varOf(id)] // `*p` of an in-out parameter: its current value
+		}
 		if t.ltOf(x.X).k != kStruct {
 			bail("dereference of a non-struct pointer at %s", t.pos(e))
 		}
@@ -1010,6 +1088,12 @@ func (t *tr) ident(x *ast.Ident, consumed bool) string {
 		bail("identifier %s is not a variable or constant at %s", x.Name, t.pos(x))
 	}
 	if t.isLocal(v) {
+		if t.opaqueParams[v] {
+			bail("opaque parameter %s used as a value at %s", x.Name, t.pos(x))
+		}
+		if t.inoutPtr(v) {
+			bail("in-out parameter %s used other than as *%s at %s", x.Name, x.Name, t.pos(x))
+		}
 		n, ok := t.names[v]
 		if !ok {
 			bail("variable %s used before its declaration was translated at %s", x.Name, t.pos(x))
@@ -1573,7 +1657,8 @@ func (t *tr) errorf(x *ast.CallExpr) string {
 				bail("%%w operand is not an error at %s", t.pos(x))
 			}
 			if res != "" {
-				bail("fmt.Errorf with two %%w verbs at %s", t.pos(x))
+				// several %w verbs: the FIRST operand identifies the error (the others are evaluated and dropped)
+				continue
 			}
 			if !strings.HasPrefix(s, "(some \"") {
 				// wrapping an error VALUE: identified by what it wraps (the format when it is nil)
@@ -1609,6 +1694,12 @@ func (t *tr) call(x *ast.CallExpr, stmt bool) string {
 	if name := t.calleeName(x); name != "" && ignoredCallee(name) {
 		return t.ignoredCall(name, x, stmt)
 	}
+	if s, ok := t.paramCall(x, stmt); ok {
+		return s
+	}
+	if name, ok := t.ioCallName(x); ok {
+		return t.ioCall(name, x, stmt)
+	}
 	switch name := t.externalName(x.Fun); name {
 	case "encoding/binary.BigEndian.Uint16":
 		return t.uintN(x.Args, 2, x)
@@ -1635,6 +1726,12 @@ func (t *tr) call(x *ast.CallExpr, stmt bool) string {
 		a := t.expr(sel.X)
 		b := t.expr(x.Args[0])
 		return "(" + a + " - " + b + ")" // saturation at ±2^63 ns is outside the model
+	}
+	if fn := t.calleeFunc(x.Fun); fn != nil && fn.FullName() == "(time.Time).Add" && len(x.Args) == 1 {
+		sel := ast.Unparen(x.Fun).(*ast.SelectorExpr)
+		a := t.expr(sel.X)
+		b := t.expr(x.Args[0])
+		return "(" + a + " + " + b + ")" // an instant plus a duration, both in nanoseconds (overflow outside the model)
 	}
 	fn := t.calleeFunc(x.Fun)
 	if fn == nil {
@@ -1700,11 +1797,34 @@ func (t *tr) call(x *ast.CallExpr, stmt bool) string {
 		bail("calls %s, which is not translatable (%s)", key, callee.why)
 	}
 	t.out.deps[callee.rel] = true
+	var backTo []*types.Var // the caller's variables that receive the in-out values back, in callee.inout order
 	for i, a := range x.Args {
+		if i < len(callee.dropParam) && callee.dropParam[i] {
+			t.harmless(a, "an argument for an opaque parameter") // nothing is handed over
+			continue
+		}
+		isInout := false
+		for _, j := range callee.inout {
+			isInout = isInout || j == i
+		}
+		if isInout {
+			s, v := t.inoutArg(a, sig.Params().At(i).Type())
+			for _, w := range backTo {
+				if w == v {
+					bail("the same variable is handed over twice as an in-out argument at %s", t.pos(x))
+				}
+			}
+			backTo = append(backTo, v)
+			args = append(args, s)
+			continue
+		}
 		args = append(args, t.argFor(a, sig.Params().At(i).Type()))
 	}
 	if callee.eff {
-		return t.effCalleeCall(callee, x, sig, args)
+		return t.effCalleeCall(callee, x, sig, args, backTo)
+	}
+	if len(callee.inout) > 0 {
+		bail("internal: in-out parameters on a pure callee at %s", t.pos(x))
 	}
 	if sig.Recv() != nil {
 		t.mergeCallee(callee, ast.Unparen(x.Fun).(*ast.SelectorExpr).X)
@@ -1737,6 +1857,9 @@ func (t *tr) conversion(to types.Type, arg ast.Expr, at ast.Node) string {
 			return "([] : Go.Bytes)"
 		}
 		bail("conversion of nil to %s at %s", to, t.pos(at))
+	}
+	if dlt.k == kInt && isFloat(t.typeOf(arg)) {
+		return t.floatToInt(to, arg, at) // an oracle value (translate_io.go)
 	}
 	slt := t.ltOf(arg)
 	switch {
@@ -1828,6 +1951,9 @@ func (t *tr) isFreshBytes(e ast.Expr) bool {
 					return t.isFreshBytes(x.Args[0])
 				}
 			}
+		}
+		if _, isAlloc := allocators[t.calleeName(x)]; isAlloc {
+			return true
 		}
 	case *ast.Ident:
 		if v := t.varOf(x); v != nil {
